@@ -121,6 +121,8 @@ func checkC14(c *Ctx) {
 	r.Rule("R14a", "paired units: identical emitted lines under identical decisions (header generator name excepted)", 8)
 	r.Rule("R14b", "generateFile of both plugins creates the same paired codec files under identical decisions", 4)
 	r.Rule("R14d", "helpers (non-emitting) reached from paired units: syntactic certificate (identical modulo renaming), differences are decided by R14a/R14e", 1)
+	r.Rule("R14f", "each Go plugin calls every codec emitter on every successful path of generateFile: neither skips a codec file (for a file without services, without messages, with enums only) that the other one writes (shared with C05/R05j)", 2)
+	codecEmittersUnconditional(c, "R14f")
 	r.Rule("R14e", "both plugins emit the same codec file for every concrete corpus file (annotated messages at top level, nested under plain and annotated parents, partially annotated enums, every annotation constant)", 8)
 
 	level := 1
